@@ -726,6 +726,15 @@ def structure_scope(res, pid, rng, tier):
                 plain.append(" ip address-mask %s secondary\n" % m)
             if cfg.nets:
                 plain.append(" neighbor 010.001.002.003 up\n")
+        # a secret keyword behind a token of punctuation and a blank: the tokens around the secret stay separate tokens
+        punct = {}
+        if cfg.pwd and not cfg.words and not cfg.asn:
+            for f_ in ("group core {{ password {} }}", "( secret {} )", "[ enable password {} ]", "a ; username bob password 0 {} ;", '"x" password {} "y"',
+                       "peer = {{ pre-shared-key ascii-text {} }}", ", snmp-server community {} RO ,"):
+                s_ = "Zq" + re.sub(r"[^A-Za-z0-9]", "x", L.gen_secret(rng, "text")) + "7w"
+                ln_ = f_.format(s_) + "\n"
+                lines.insert(len(lines) - 1, ln_)
+                punct[ln_.rstrip("\n")] = s_
         lines = lines[:-1] + plain + [lines[-1]]
         # lines made of enclosing characters only; a sensitive-word line repeated with other trailing white space / terminator
         odd = ['"\n', '""\n', "'\n", '" "\n', "  ''  \n", "}\n", "];\n", '\\"\n']
@@ -777,6 +786,12 @@ def structure_scope(res, pid, rng, tier):
                 ta, tb = a.split(" "), b.split(" ")
                 if len(ta) != len(tb) or ta[:3] + ta[4:] != tb[:3] + tb[4:]:
                     fails.append({"kind": "a token that is not a sensitive item changed (line that also holds a sensitive word)", "cfg": cfg.describe(),
+                                  "line": a, "output": b})
+            if a in punct:
+                ta, tb = a.split(), b.split()
+                k_ = ta.index(punct[a])
+                if len(ta) != len(tb) or ta[:k_] + ta[k_ + 1:] != tb[:k_] + tb[k_ + 1:]:
+                    fails.append({"kind": "a token that is not a sensitive item changed (punctuation tokens around a secret keyword)", "cfg": cfg.describe(),
                                   "line": a, "output": b})
             if (a + "\n") in plain:
                 # no sensitive item: tokens carried over verbatim; inner runs may collapse only with secrets/words on
